@@ -93,7 +93,7 @@ def make(pid, check_program, nontrivial, extra_feats=None):
         if fuzz_mod:
             # coverage-guided campaigns over the same grammar (constructs of recorded findings excluded as in the main shards)
             d_, r_ = (quick[1], quick[2]) if tier == "quick" else (thorough[1], thorough[2])
-            specs += [("pfuzz", fuzz_mod, seed, s, 250 if tier == "quick" else 6000, d_, r_, off) for s in range(8 if tier == "quick" else 16)]
+            specs += [("pfuzz", fuzz_mod, seed, s, 250 if tier == "quick" else 2500, d_, r_, off) for s in range(8 if tier == "quick" else 16)]
         ex, depth, runs, pex, pshards = quick if tier == "quick" else thorough
         specs.append(("tmpl", max(depth, 10), max(runs, 60)))
         # the exhaustive jump-arm family: every 3rd program (offset by the seed) in the quick tier, all in the thorough tier
